@@ -201,7 +201,7 @@ def py_ref_resolve(canon, jobs):
 def submission_stream(ctx, quick):
     rng = ctx.rng
     cases, structured = [], []
-    for i in range(150 if quick else 3000):
+    for i in range(150 if quick else 1200):
         if rng.random() < 0.75:
             adj, jobs = job_dag(rng)
             structured.append(True)
@@ -280,7 +280,7 @@ def run(ctx):
     ctx.build("C07", deps=["Model/TaskGraph.v"])
     quick = ctx.tier == "quick"
     rng = ctx.rng
-    n_graphs = 140 if quick else 2500
+    n_graphs = 140 if quick else 1000
     triples = []
     mon = []           # indices of the cases the monitor applies to
     for _ in range(n_graphs):
@@ -293,7 +293,7 @@ def run(ctx):
             probs = [tasks[c][4] for c in ch[t]]
             if sum(probs) <= tg.DEN and probs[draw] > 0 and clo.py_closed(adj, tasks):
                 mon.append(len(triples) - 1)
-    n_rand = 300 if quick else 5000
+    n_rand = 300 if quick else 2500
     triples += [tg.rand_case(rng, ["notify", "notify", "resolve", "ready", "flags"]) for _ in range(n_rand)]
     ctx.rules.append("S-conditional: notify_task_completion on structured conditional/join graphs (nested conditionals, branches "
                      "of unequal length, empty branches = direct edge to the join, extra parents) in run-like states (ancestors "
@@ -354,7 +354,7 @@ def run(ctx):
         if sum(w) > 0:
             wvs.append(w)
     subs = []
-    for i in range(30 if quick else 300):
+    for i in range(30 if quick else 150):
         adj, flags = tg.cond_dag(rng)
         nodes = tg.key_order(adj)
         tasks = tg.gen_tasks(rng, adj, flags, "fresh")
